@@ -362,15 +362,16 @@ type fnExtra struct {
 }
 
 type fnGen struct {
-	externs map[string]bool // "pkg.F": calls are translated as calls of a function argument
-	file    *ast.File
-	funcs   map[string]*fnFunc // by spec and by call name
-	byCall  map[string]*fnFunc // "gcd", "pushUp" (method name)
-	order   []*fnFunc
-	structs map[string]*ast.TypeSpec
-	consts  map[string]ast.Expr
-	ifaces  map[string]*ast.TypeSpec
-	named   map[string]*ast.TypeSpec // named map types of the file (type Set[T comparable] map[T]struct{})
+	externs   map[string]bool // "pkg.F": calls are translated as calls of a function argument
+	file      *ast.File
+	funcs     map[string]*fnFunc // by spec and by call name
+	byCall    map[string]*fnFunc // "gcd", "pushUp" (method name)
+	order     []*fnFunc
+	structs   map[string]*ast.TypeSpec
+	consts    map[string]ast.Expr
+	ifaces    map[string]*ast.TypeSpec
+	desugared map[*ast.FuncDecl]bool
+	named     map[string]*ast.TypeSpec // named map types of the file (type Set[T comparable] map[T]struct{})
 	// structs of the file used as values: emitted as Records, in declaration order
 	structOrder []string
 	usedStructs map[string]bool
@@ -420,8 +421,10 @@ type fnCtx struct {
 	synth      map[ast.Node]*fnVar
 	synthLim   map[ast.Node]*fnVar
 	synthKey   map[ast.Node]*fnVar
-	foreignPkg string // while the signature of a method of another package is read: that package
-	noMapMut   bool   // the body changes no map at all: map variables may be copied (read-only aliases)
+	foreignPkg string               // while the signature of a method of another package is read: that package
+	mapMut     map[*ast.Object]bool // the variables whose map may be changed
+	synthWin   map[ast.Node]*fnVar
+	noMapMut   bool // the body changes no map at all: map variables may be copied (read-only aliases)
 	loopDone   map[ast.Node]string
 	loopInfo   map[string]*loopInfo
 	extras     map[string]*fnVar // by key
